@@ -96,10 +96,14 @@ static void move_case(int op, int cap) {
     if (vh_randint(0, 2) == 0) lc = lc / 64 * 64;
     int hc = vh_randint(lc + 1, n);
     if (vh_randint(0, 2) == 0 && lc + 64 <= n) hc = lc + 64 * vh_randint(1, (n - lc) / 64);
-    mzd_t *S = dnull ? NULL : vh_mk_kind(hr - lr, hc - lc, RK());
+    /* a supplied destination may be larger than the block (only a smaller one is refused): the block goes to its
+       upper left corner, the rest stays */
+    int big = !dnull && vh_randint(0, 3) == 0;
+    int sm = hr - lr + (big ? vh_randint(0, 3) : 0), sn = hc - lc + (big ? vh_pick((int[]){0, 1, 5, 30, 63, 64, 65, 130}, 8) : 0);
+    mzd_t *S = dnull ? NULL : vh_mk_kind(sm, sn, RK());
     vh_begin(&e, "submatrix");
     vh_pi(&e, "lr", lr); vh_pi(&e, "lc", lc); vh_pi(&e, "hr", hr); vh_pi(&e, "hc", hc);
-    vh_opnd(&e, "S", 'o', S); vh_opnd(&e, "A", 'i', A);
+    vh_opnd(&e, "S", big ? 'b' : 'o', S); vh_opnd(&e, "A", 'i', A);
     vh_pre(&e);
     if (VH_CALL(&e)) R = mzd_submatrix(S, A, lr, lc, hr, hc);
     VH_END(&e);
